@@ -46,13 +46,32 @@ type fsHarness struct {
 	e       *echo.Echo
 	job     *jobs.JSinkDriver
 	gen     int
+	sent    map[string]int // id -> value of g the last request carried for it
+}
+
+// holds reports whether the dataset's latest version of id carries the content the last request sent for it.
+func (f *fsHarness) holds(id string) bool {
+	ds := f.jw.W.Dsm.GetDataset(f.h.DsName("A"))
+	e, err := f.jw.W.Store.GetEntity(f.h.URI(id), []string{ds.ID}, true)
+	if err != nil || e == nil || e.IsDeleted {
+		return false
+	}
+	g, ok := e.Properties[f.h.Key("g")]
+	if !ok {
+		return false
+	}
+	return fmt.Sprint(g) == fmt.Sprint(f.sent[id])
 }
 
 func (f *fsHarness) body(ents []string) []byte {
 	var l []interface{}
 	l = append(l, map[string]interface{}{"id": "@context", "namespaces": map[string]string{"_": server.VNamespace}})
+	if f.sent == nil {
+		f.sent = map[string]int{}
+	}
 	for _, id := range ents {
 		f.gen++
+		f.sent[id] = f.gen
 		l = append(l, map[string]interface{}{"id": id + "_" + f.h.Tag, "props": map[string]interface{}{"g": f.gen}, "refs": map[string]interface{}{}})
 	}
 	b, _ := json.Marshal(l)
@@ -84,6 +103,33 @@ func (f *fsHarness) post(op FsOp) int {
 	c.SetParamNames("dataset")
 	c.SetParamValues(f.h.DsName("A"))
 	if err := f.handler.storeEntitiesHandler(c); err != nil {
+		if he, ok := err.(*echo.HTTPError); ok {
+			return he.Code
+		}
+		return 500
+	}
+	return rec.Code
+}
+
+// postTxn sends the entities as a transaction document (POST /transactions), the other write path into a dataset.
+func (f *fsHarness) postTxn(op FsOp) int {
+	var l []interface{}
+	for _, id := range op.Ents {
+		f.gen++
+		l = append(l, map[string]interface{}{"id": id + "_" + f.h.Tag, "props": map[string]interface{}{"g": f.gen}, "refs": map[string]interface{}{}})
+	}
+	doc := map[string]interface{}{"@context": map[string]interface{}{"namespaces": map[string]string{"_": server.VNamespace}}, f.h.DsName("A"): l}
+	b, _ := json.Marshal(doc)
+	// "@context" has to be the first key: build the text by hand
+	ents, _ := json.Marshal(l)
+	ctx, _ := json.Marshal(doc["@context"])
+	name, _ := json.Marshal(f.h.DsName("A"))
+	b = []byte(`{"@context":` + string(ctx) + `,` + string(name) + `:` + string(ents) + `}`)
+	req := httptest.NewRequest(http.MethodPost, "/transactions", bytes.NewReader(b))
+	rec := httptest.NewRecorder()
+	c := f.e.NewContext(req, rec)
+	th := &txnHandler{store: f.jw.W.Store}
+	if err := th.processTransaction(c); err != nil {
 		if he, ok := err.(*echo.HTTPError); ok {
 			return he.Code
 		}
@@ -205,6 +251,8 @@ func replayFullSync(hist []FsOp) (res fsResult) {
 			switch op.K {
 			case "start", "batch", "end", "startend", "plain":
 				status = f.post(op)
+			case "txn":
+				status = f.postTxn(op)
 			case "jobstart":
 				jerr = f.job.Start()
 			case "jobbatch":
@@ -260,6 +308,20 @@ func replayFullSync(hist []FsOp) (res fsResult) {
 				for _, id := range op.Ents {
 					m.seen[id] = true
 				}
+			case "txn":
+				// a transaction knows nothing about sync ids: it is a write into the dataset; if a sync is active, the
+				// entities were written since its start
+				noDeletes("a transaction never deletes")
+				if accepted {
+					stored()
+					if m.active {
+						for _, id := range op.Ents {
+							m.seen[id] = true
+						}
+					}
+				} else {
+					noEffect("rejected")
+				}
 			case "batch", "plain":
 				foreign := m.active && op.ID != m.id
 				if foreign && !(op.ID == "" && m.byJob) {
@@ -298,11 +360,15 @@ func replayFullSync(hist []FsOp) (res fsResult) {
 					noDeletes("no matching active sync: superseded, expired, foreign or never started")
 					if accepted && op.K != "jobend" {
 						stored()
-					} else if !accepted {
+					} else if !accepted && op.K != "jobend" {
+						// an end that is refused may or may not have stored its own entities (left open). If it has, they
+						// are written to the dataset: live, and written since the start of whatever sync is active
 						for _, id := range op.Ents {
-							if liveAfter[id] != liveBefore[id] {
-								// an end that is refused may or may not have stored its own entities (left open); nothing else may change
-								_ = id
+							if f.holds(id) {
+								m.live[id] = "x"
+								if m.active {
+									m.seen[id] = true
+								}
 							}
 						}
 					}
@@ -405,12 +471,14 @@ func init() {
 		})
 	})
 	engine.RegisterCheck("C09", func(r *engine.Run) {
-		r.Rule = "SEQ: every sequence up to the stated depth of full-sync requests through the real HTTP handler (start/batch/end with ids x,y or none, single-request start+end, plain writes) and through the real job sink (start/batch/end), plus lease expiry (timers owned by the controlled scheduler), on a dataset preloaded with 3 live entities; after every request: a foreign-id batch has no effect, nothing but a completing end deletes, a completing end deletes exactly the previously live entities not written since the start (each once), superseded/expired/abandoned syncs delete nothing. SCHED: the lease goroutine and the passage of time interleaved with end/batch/start requests"
+		r.Rule = "SEQ: every sequence up to the stated depth of full-sync requests through the real HTTP handler (start/batch/end with ids x,y or none, single-request start+end, plain writes, POST /transactions) and through the real job sink (start/batch/end), plus lease expiry (timers owned by the controlled scheduler), on a dataset preloaded with 3 live entities; after every request: a foreign-id batch has no effect, nothing but a completing end deletes, a completing end deletes exactly the previously live entities not written since the start (each once), superseded/expired/abandoned syncs delete nothing. SCHED: the lease goroutine and the passage of time interleaved with end/batch/start requests"
 		r.Assumptions = []string{"whether a write without sync id is accepted while a sync is active, and whether a batch with an id is accepted when no sync is active, is left open (both answers accepted; consequences checked)", "time only passes when the explorer lets a deadline thread run"}
 		var alpha []FsOp
 		for _, id := range []string{"x", "y"} {
 			alpha = append(alpha, FsOp{K: "start", ID: id, Ents: []string{"e1"}}, FsOp{K: "batch", ID: id, Ents: []string{"e2"}}, FsOp{K: "end", ID: id, Ents: []string{"e4"}})
 		}
+		// an end request without a sync id, and a write through POST /transactions
+		alpha = append(alpha, FsOp{K: "end", ID: "", Ents: []string{"e4"}}, FsOp{K: "txn", Ents: []string{"e2"}})
 		alpha = append(alpha, FsOp{K: "batch", Ents: []string{"e3"}}, FsOp{K: "startend", ID: "x", Ents: []string{"e1", "e2"}},
 			FsOp{K: "jobstart"}, FsOp{K: "jobbatch", Ents: []string{"e1", "e4"}}, FsOp{K: "jobend"}, FsOp{K: "expire"})
 		var raw []json.RawMessage
